@@ -577,6 +577,8 @@ class Translator:
         elif d.kind == "struct":
             if len(d.fields) != len(s.fields):
                 raise TranslateError(f"struct layout mismatch {s.name} -> {d.name}")
+            if s.extra.get("pyval") is not None:
+                d.extra["pyval"] = s.extra["pyval"]      # closure remembered by an iterator adaptor (static shape)
             for a, b in zip(d.fields, s.fields):
                 self.copy(Loc(a, dst.idxs), Loc(b, src.idxs))
         elif d.kind == "enum":
@@ -720,6 +722,17 @@ class Translator:
 
     def eval_operand(self, inst: FnInstance, op: Operand, want: Optional[SNode] = None):
         if op.kind == "const":
+            mp = re.search(r"::promoted\[(\d+)\]\s*$", op.const)
+            if mp:
+                pf = self.fns.get(f"{inst.fn.name}::promoted[{mp.group(1)}]")
+                if pf is None:
+                    raise TranslateError(f"promoted constant body not found: {op.const}")
+                self.tmpn += 1
+                node = self.alloc(self.parse_ty(pf.ret_ty), f"prom{self.tmpn}", [], self.cur.storage)
+                saved = inst.curbb
+                self.inline(pf, [], Loc(node, []))
+                inst.curbb = saved
+                return VLoc(Loc(node, []))
             sc = self.const_scalar(op.const)
             if sc is not None:
                 return sc
@@ -771,6 +784,9 @@ class Translator:
             op = rv.ops[0]
             if op.kind == "const":
                 dst = self.eval_place(inst, pl)
+                if re.search(r"::promoted\[(\d+)\]\s*$", op.const):
+                    self.store(dst, self.eval_operand(inst, op))
+                    return
                 self.store(dst, self.const_value(op.const, dst.node))
                 return
             src = self.eval_place(inst, op.place)
